@@ -28,6 +28,7 @@ func init() {
 			{ID: "C07.4", Doc: "ids issued atomically from a 64-bit counter", Floor: 5, Run: c07r4},
 			{ID: "C07.5", Doc: "fresh buffered reply channel per query", Floor: 2, Run: c07r5},
 			{ID: "C07.6", Doc: "datagram payload and source processed together", Floor: 2, Run: c07r6},
+			{ID: "C07.8", Doc: "only non-queries are looked up in the transaction table: a query that happens to carry the address and id of one of our outstanding transactions is still a query", Floor: 1, Run: c07r8},
 			{ID: "C07.7", Doc: "every datagram is decoded into a fresh message: no field of an earlier datagram can survive into a later one", Floor: 1, Run: c07r7},
 		},
 	})
@@ -620,5 +621,36 @@ func c07r7(w *World, rr *RuleRun) {
 	}
 	if n == 0 {
 		rr.Oblige(shortFuncName(pp), "the datagram is decoded into a fresh krpc.Msg local to the decoding call", w.P.Pos(pp.Pos()), false, "no bencode.Unmarshal into a krpc.Msg on the packet path")
+	}
+}
+
+// c07r8: the transaction lookup in the packet path happens only for messages that are not queries.
+func c07r8(w *World, rr *RuleRun) {
+	pp := w.P.Func("(*Server).processPacket")
+	msgY := w.P.Field("krpc", "Msg", "Y")
+	n := 0
+	for _, f := range w.regionFuncs(pp) {
+		eachInstr([]*ssa.Function{f}, func(_ *ssa.Function, ins ssa.Instruction) {
+			c := callInstrCommon(ins)
+			if c == nil || c.StaticCallee() == nil {
+				return
+			}
+			name := shortFuncName(c.StaticCallee())
+			if !strings.HasPrefix(name, "(*transactions.Dispatcher[") || !(strings.Contains(name, ".Have") || strings.Contains(name, ".Pop")) {
+				return
+			}
+			n++
+			w.Require(rr, ins, "the transaction table is consulted only for a message that is not a query", func(alt *Alt) (bool, string) {
+				if alt.Has("b", false, func(x *Term) bool {
+					return x.Op == OpBin && x.Name == "==" && ((isFieldTerm(x.Args[0], msgY) && x.Args[1].IsConst(`"q"`)) || (isFieldTerm(x.Args[1], msgY) && x.Args[0].IsConst(`"q"`)))
+				}) {
+					return true, `y ≠ "q"`
+				}
+				return false, `no (y ≠ "q") fact: a query can be swallowed as the response to an outstanding transaction`
+			})
+		})
+	}
+	if n == 0 {
+		rr.Oblige(shortFuncName(pp), "the transaction table is consulted only for a message that is not a query", w.P.Pos(pp.Pos()), false, "no dispatcher lookup on the packet path")
 	}
 }
